@@ -36,7 +36,9 @@ SpecOf(c, k) == c.specs[CHOOSE i \in DOMAIN c.specs : c.specs[i].k = k]
 DeclCol(c) == [name |-> c.name, ty |-> c.type, notnull |-> HasSpec(c, "NotNull"),
                dflt |-> IF HasSpec(c, "Default") THEN [k |-> "some", v |-> SpecOf(c, "Default").v] ELSE [k |-> "none"],
                unique |-> HasSpec(c, "Unique"), colpk |-> HasSpec(c, "PrimaryKey"), autoinc |-> HasSpec(c, "AutoIncrement"),
-               nchecks |-> Cardinality({i \in DOMAIN c.specs : c.specs[i].k = "Check"})]
+               nchecks |-> Cardinality({i \in DOMAIN c.specs : c.specs[i].k = "Check"}),
+               \* generated column: PRAGMA table_xinfo reports hidden = 2 (virtual) / 3 (stored)
+               hidden |-> IF HasSpec(c, "Generated") THEN (IF SpecOf(c, "Generated").stored THEN 3 ELSE 2) ELSE 0]
 Idx(name, unique, origin, partial, cols) == [name |-> name, unique |-> unique, origin |-> origin, partial |-> partial, cols |-> cols]
 PlainCols(ns) == [i \in DOMAIN ns |-> [n |-> ns[i], desc |-> FALSE]]
 IdxCols(cs) == [i \in DOMAIN cs |-> [n |-> cs[i].n, desc |-> "o" \in DOMAIN cs[i] /\ cs[i].o = "Desc"]]
@@ -72,10 +74,12 @@ Supported13(d) ==
          /\ "engine" \notin DOMAIN d /\ "collate" \notin DOMAIN d /\ "character_set" \notin DOMAIN d        \* MySQL table options
          /\ ~((\E i \in DOMAIN d.cols : HasSpec(d.cols[i], "PrimaryKey")) /\ "indexes" \in DOMAIN d /\ \E i \in DOMAIN d.indexes : "primary" \in DOMAIN d.indexes[i] /\ d.indexes[i].primary)
          /\ Cardinality({i \in DOMAIN d.cols : HasSpec(d.cols[i], "PrimaryKey")}) <= 1
+         /\ \A i \in DOMAIN d.cols : HasSpec(d.cols[i], "Generated") => ~HasSpec(d.cols[i], "PrimaryKey") /\ ~HasSpec(d.cols[i], "Default") /\ ~HasSpec(d.cols[i], "AutoIncrement")
     [] d.stmt = "table_alter" -> Len(d.ops) = 1 /\ d.ops[1].k \in {"add_column", "rename_column", "drop_column"}
                                  /\ (d.ops[1].k = "add_column" => "type" \in DOMAIN d.ops[1].col /\ SqliteHasType(d.ops[1].col.type)
                                         /\ ~HasSpec(d.ops[1].col, "PrimaryKey") /\ ~HasSpec(d.ops[1].col, "Unique")
-                                        /\ (HasSpec(d.ops[1].col, "NotNull") => HasSpec(d.ops[1].col, "Default")))
+                                        /\ (HasSpec(d.ops[1].col, "NotNull") => HasSpec(d.ops[1].col, "Default"))
+                                        /\ (HasSpec(d.ops[1].col, "Generated") => ~SpecOf(d.ops[1].col, "Generated").stored /\ ~HasSpec(d.ops[1].col, "Default")))
     [] d.stmt \in {"index_create", "index_drop", "table_rename", "table_drop"} ->
          ~(d.stmt = "index_create" /\ "primary" \in DOMAIN d /\ d.primary) /\ ~(d.stmt = "table_drop" /\ Len(d.tables) # 1)
     [] OTHER -> FALSE
@@ -130,7 +134,7 @@ Exec(cat, d) ==
 FkAct(a) == CASE a = "Restrict" -> "RESTRICT" [] a = "Cascade" -> "CASCADE" [] a = "SetNull" -> "SET NULL" [] a = "SetDefault" -> "SET DEFAULT" [] OTHER -> "NO ACTION"
 \* reasons why dumped table dt differs from declared table mt
 TableReasons(mt, dt) ==
-  LET dcols == SelectSeq(dt.cols, LAMBDA c : c.hidden = 0)
+  LET dcols == SelectSeq(dt.cols, LAMBDA c : c.hidden \in {0, 2, 3})
       rowidAlias == Len(mt.pk) = 1 /\ \E i \in DOMAIN dcols : dcols[i].name = mt.pk[1] /\ UpperStr(dcols[i].type) = "INTEGER"
       \* automatic indexes the declaration implies
       wantAuto == (IF Len(mt.pk) > 0 /\ ~rowidAlias THEN {[unique |-> 1, origin |-> "pk", cols |-> PlainCols(mt.pk)]} ELSE {})
@@ -150,6 +154,7 @@ TableReasons(mt, dt) ==
              \cup (IF mt.cols[i].dflt.k = "none" THEN (IF dcols[i].has_dflt THEN {"default_not_declared"} ELSE {})
                    ELSE IF ~dcols[i].has_dflt THEN {"default_missing"}
                    ELSE IF LitDenotes("sqlite", Lex("sqlite", dcols[i].dflt), mt.cols[i].dflt.v) THEN {} ELSE {"default_differs"})
+             \cup (IF dcols[i].hidden = mt.cols[i].hidden THEN {} ELSE {"generated_column_differs"})
              \cup (IF Intended(mt.cols[i].ty) = "?" \/ Affinity(dcols[i].type) = Intended(mt.cols[i].ty) THEN {} ELSE {"affinity_differs:" \o mt.cols[i].ty.k})
              \cup (LET pos == IF \E j \in DOMAIN mt.pk : mt.pk[j] = mt.cols[i].name THEN CHOOSE j \in DOMAIN mt.pk : mt.pk[j] = mt.cols[i].name ELSE 0
                    IN IF dcols[i].pk = pos THEN {} ELSE {"primary_key_differs"})
